@@ -17,7 +17,7 @@ SPECIAL = [
     'C[C@H](N)C(=O)O', 'C[C@@H](N)C(=O)O', 'N[C@@H](Cc1ccccc1)C(=O)O', 'C[C@H](O)[C@@H](N)C(=O)O',
     'C[C@@](F)(Cl)Br', 'F[C@](Cl)(Br)I', '[C@H](F)(Cl)Br', 'OC[C@H]1OC(O)[C@H](O)[C@@H](O)[C@@H]1O',
     'C/C=C/C', 'C/C=C\\C', 'F/C=C/F', 'C/C=C/C=C/C', 'C/C=C\\C=C/C', 'CC/C=C(/C)CC', 'C/C(F)=C(/Cl)Br',
-    'C/C=C1/CCCC(C)C1', 'C/N=C/C', 'C/C=N/O', 'CC=[C@]=CC', 'CC=[C@@]=CC', 'CC(F)=[C@]=C(Cl)C', 'C/C=C=C=C/C',
+    'C/C=C1/CCCC(C)C1', 'C/C1=C/C=C/CCCCCC1', 'C/C1=C\\C=C/CCCCCC1', 'C/C1=C/C=C\\CCCCCC1', 'C/C1=C/C=C/CCCCCCCCC1', 'C/N=C/C', 'C/C=N/O', 'CC=[C@]=CC', 'CC=[C@@]=CC', 'CC(F)=[C@]=C(Cl)C', 'C/C=C=C=C/C',
     'C/C=C=C=C\\C', 'C[C@H]1CC[C@@H](C)CC1', 'C[C@H]1CCC[C@@H](C)C1', 'C[C@@H]1C[C@H]1C', 'O=C1CC[C@H](C)CC1',
     'C[C@H](F)/C=C/[C@@H](C)Cl', 'C[C@H](F)C=[C@]=C[C@H](C)Cl',
     'c1ccccc1', 'c1ccncc1', 'c1cc[nH]c1', 'c1ccoc1', 'c1ccsc1', 'c1ccc2ccccc2c1', 'c1ccc2[nH]ccc2c1', 'c1cnc2ccccc2c1',
